@@ -61,6 +61,9 @@ class Cones:
             m |= self.sc(it["f"])
         elif t == "keep":
             m.add(("node", self.fp_keep(fn, i)))
+            for a in it.get("args", []):
+                if a["k"] in ("rtcall", "kwrtcall"):
+                    m |= self.sc(a["f"])
         elif t == "load":
             prod = self.producers().get(it["path"])
             if prod is not None and self._in_eval(prod):
@@ -116,9 +119,7 @@ class Cones:
                 pos += 1
             elif a["k"] == "kw":
                 bind[a["n"]] = repr(a["v"])
-            elif a["k"] == "rt":
-                return None
-            elif a["k"] == "kwrt":
+            elif a["k"] in ("rt", "kwrt", "rtcall", "kwrtcall"):
                 return None
         for (n, d) in g["params"]:
             if n not in bind:
@@ -137,6 +138,9 @@ class Cones:
                 m |= self._item_members(caller, j, it)
             elif j < i:
                 m |= self._item_members(caller, j, it)
+        for a in g["body"][i].get("args", []):
+            if a["k"] in ("rtcall", "kwrtcall"):
+                m |= self.sc(a["f"])
         m |= self.binding_of(caller)
         return m
 
